@@ -188,3 +188,33 @@ def stub(k00: int, k01: int, k02: int, k03: int, k10: int, k11: int, k12: int, k
         return True
     reach()
     return r
+
+
+def exts_history(a1: int, a2: int, a3: int, tamper: bool) -> bool:
+    """
+    pre: 0 <= a1 < 7 and 0 <= a2 < 7 and 0 <= a3 < 7
+    post: _
+    """
+    # (S4) over histories with interrupted patches, discards and reopens (vt/mfhist.py): the manifest of the
+    # last commit stays available, extensions persist until overridden, sidecar == container after every
+    # commit; tamper: an edited sidecar of the newest committed container is refused under an uncommitted patch
+    from vt import mfhist
+    acts = []
+    for a in (a1, a2, a3):
+        for c in range(len(mfhist.ACTS)):
+            if a == c:
+                acts.append(mfhist.ACTS[c])
+    tamper = True if tamper else False
+    reach()
+    P_.sample({"acts": acts, "tamper": tamper})
+    return P_.native_call("vt.harness.c10", "exts_native", acts, tamper)
+
+
+def exts_native(acts, tamper):
+    from vt import mfhist
+    C5.INST.reset()
+    notes = []
+    ok = mfhist.run(IH5MFRecord, IH5Manifest, IH5UBExtManifest, hashsum_file, FakePath, fakeh5.fake_open, REC_PATH, acts, tamper, notes)
+    for n_ in notes:
+        note(n_)
+    return ok
